@@ -313,12 +313,6 @@ inline void crash_handler(int sig) {
   }
   ::_exit(40 + (sig & 15));
 }
-#ifndef VF_LIBFUZZER
-// Sanitizer flavours: a report must end in abort() (not _exit) so that crash_handler saves the tape of the running case and the driver
-// gets a replayable violation instead of an unexplained worker exit.  (Unused in the unsanitized flavours.)
-extern "C" __attribute__((used)) const char* __asan_default_options() { return "abort_on_error=1:detect_leaks=0:allocator_may_return_null=1"; }
-extern "C" __attribute__((used)) const char* __ubsan_default_options() { return "abort_on_error=1:print_stacktrace=1"; }
-#endif
 inline void install_crash_handlers() {
   for (int sg : { SIGSEGV, SIGABRT, SIGFPE, SIGBUS, SIGILL }) std::signal(sg, crash_handler);
 }
@@ -447,6 +441,11 @@ namespace vf { inline int fuzz_one(const uint8_t* data, size_t size) {
   return 0; } }
 #define VF_MAIN extern "C" int LLVMFuzzerTestOneInput(const uint8_t* data, size_t size) { return vf::fuzz_one(data, size); }
 #else
-#define VF_MAIN int main(int argc, char** argv) { return vf::main_impl(argc, argv); }
+// Sanitizer flavours: a report must end in abort() (not _exit) so that crash_handler saves the tape of the running case and the driver
+// gets a replayable violation instead of an unexplained worker exit.  (Unused in the unsanitized flavours; defined once per binary.)
+#define VF_MAIN \
+  extern "C" __attribute__((used)) const char* __asan_default_options() { return "abort_on_error=1:detect_leaks=0:allocator_may_return_null=1"; } \
+  extern "C" __attribute__((used)) const char* __ubsan_default_options() { return "abort_on_error=1:print_stacktrace=1"; } \
+  int main(int argc, char** argv) { return vf::main_impl(argc, argv); }
 #endif
 #endif
